@@ -624,15 +624,18 @@ def check_c19(prop, tier, replay, selftest):
     run_harness(binary, ["frontend", "--tier", tier, "--out", out])
     if selftest:
         def corrupt(rec):
-            polls = [s for s in rec.get("steps", []) if s["a"] != "fwd" and len(s["nodes"]) > 3]
+            polls = [s for s in rec.get("steps", []) if s["a"] in ("relay", "recv") and len(s["nodes"]) > 3]
             if rec.get("mode") != "scheduled" or not polls:
                 return None
             polls[0]["nodes"] = polls[0]["nodes"][:-1]      # the observer "lost" its newest node
             return rec
         ok = selftest_corrupt("Trace_Frontend", out, corrupt)
         print("SELFTEST %s: %s" % (prop, "binding demonstrated" if ok else "FAILED"))
-        return 0 if ok else 2
+        r1 = tlc_mc("FrontendHangup", "FrontendHangup_fwdfirst.cfg", workers=8, timeout=600)
+        print("SELFTEST C19 model: a relay that forwards before it stores %s the mirror once the last store has hung up" % ("breaks" if r1["violation"] else "DOES NOT break"))
+        return 0 if ok and r1["violation"] else 2
     res.add_mc(require_mc(tlc_mc("Frontend", "Frontend.cfg", workers=8, timeout=600)))
+    res.add_mc(require_mc(tlc_mc("FrontendHangup", "FrontendHangup.cfg", workers=8, timeout=600)))
     if tier == "thorough":
         res.add_mc(require_mc(tlc_mc("Frontend", "Frontend_9.cfg", workers=12, timeout=2400)))
     # unbounded: TLAPS proves PrefixInv /\ FoundRule inductive for any stream length and interleaving (same Frontend.tla)
@@ -658,7 +661,7 @@ def check_c19(prop, tier, replay, selftest):
         r = json.loads(line)
         if r.get("kind") != "frontend":
             continue
-        ps = [s for s in r["steps"] if s["a"] != "fwd"]
+        ps = [s for s in r["steps"] if s["a"] in ("relay", "recv")]
         polls += len(ps)
         if any(not s["found"] for s in ps) and any(s["found"] and s["h"] >= 2 for s in ps):
             seen.add(hashlib.sha1(json.dumps([r["prod"], [(s["a"], s.get("h")) for s in r["steps"]]]).encode()).hexdigest())
